@@ -72,7 +72,10 @@ def acceptedRaise (j : Journal) : Bool :=
 def monitorsWant (c : Spec.Ctx) (obsDelta : Int) (j : Journal) (fatalHere : Bool) (stillTainted : List String := []) : List String :=
   let unt : Int := Spec.untaintedCount c
   let want : Int := if unt < c.st.minEff then c.st.minEff - unt else obsDelta
-  (if fatalHere then [] else (Spec.decisionBad c obsDelta).flatMap (fun t => ["C06|" ++ t, "C13|" ++ t])) ++
+  (if fatalHere then [] else (Spec.decisionBad c obsDelta).flatMap (fun t => ["C06|" ++ t, "C13|" ++ t] ++
+    -- the exact utilisation is taken over the uncordoned nodes only: with a cordoned node in view, a decision that
+    -- contradicts it also speaks against "a cordoned node's resources are excluded from the capacity"
+    (if c.view.nodes.any (·.unschedulable) then ["C09|cordoned-node-in-view:" ++ t] else []))) ++
   if c.dry then [] else
   (if Spec.C07.orderHolds c j then [] else ["C07|order"]) ++
   (if Spec.C07.reuseHolds c j then [] else ["C07|reuse"]) ++
